@@ -11,6 +11,10 @@ def refix_all(t, fname):
             t = re.sub(r"^from inspect import (.*)$", lambda m: f"from inspect import {m.group(1)}, isawaitable", t, count=1, flags=re.M)
         else:
             t = re.sub(r"^(from typing import)", "from inspect import isawaitable\n\\1", t, count=1, flags=re.M)
+    # repo fixes 82ebe23 / 9f1a290 / 7a2b048
+    t = re.sub(r"def __call__\(self, \*args", "def __call__(self, /, *args", t)
+    t = re.sub(r"def cache_discard\(self, \*args", "def cache_discard(self, /, *args", t)
+    t = re.sub(r"def callback\(self, callback: C, \*args", "def callback(self, callback: C, /, *args", t)
     if fname.endswith("builtins.py"):
         t = re.sub(r"\b(value) != ((?:self\._)?sentinel)\b(?<!is not sentinel and value != sentinel)", r"\1 is not \2 and \1 != \2", t)
         t = t.replace("value is not sentinel and value is not sentinel and", "value is not sentinel and")
